@@ -6,9 +6,12 @@
 (*  HR {kind, st, hdr, cookie, code, inbody}  response side: a field          *)
 (*     annotated header / cookie / http_code is delivered there (hdr/cookie/  *)
 (*     code = delivered correctly) and omitted from the JSON body             *)
+(*  HV {ty, v, src, st, t, got, plain}  conversion by field type: the abstract   *)
+(*     value v was delivered as text in source src; t / got = type code and     *)
+(*     encoding of the field as written                                         *)
 (*  HMMany {n, body, st, wrong}  n mapped root fields (beyond the native      *)
 (*     field cache): number of fields that did not get their value            *)
-EXTENDS HttpMap, TLC, TraceKit
+EXTENDS HttpMap, HttpVal, TLC, TraceKit
 
 Trace == ndJsonDeserialize("trace.ndjson")
 VARIABLES l
@@ -35,6 +38,12 @@ Step ==
         /\ Chk(e.st # "ok" \/ e.delivered, [tag |-> "MM", i |-> l, ev |-> "HR", api |-> e.kind, label |-> "Delivered", exp |-> "", got |-> "not-delivered", detail |-> ""])
         /\ Chk(e.st # "ok" \/ ~e.inbody, [tag |-> "MM", i |-> l, ev |-> "HR", api |-> e.kind, label |-> "OmittedFromBody", exp |-> "", got |-> "still-in-body", detail |-> ""])
         /\ Chk(e.st # "ok" \/ e.others, [tag |-> "MM", i |-> l, ev |-> "HR", api |-> e.kind, label |-> "OtherFieldsInBody", exp |-> "", got |-> "differs", detail |-> ""])
+     ELSE IF e.ev = "HV" THEN
+        LET x == HVExpect(e.ty, e.v)
+            R(lbl, got) == [tag |-> "MM", i |-> l, ev |-> "HV", api |-> e.ty, label |-> lbl, exp |-> "", got |-> got, detail |-> e.src] IN
+        /\ Chk(e.st = "ok", R("Converts", e.st))
+        /\ Chk(e.st # "ok" \/ (e.t = x.t /\ e.got = Enc(x)), R("ValueByType", IF e.t # x.t THEN "wrong-type-code" ELSE "wrong-value"))
+        /\ Chk(e.st # "ok" \/ e.src = "form" \/ e.plain, R("UnannotatedFromBody", "differs"))
      ELSE IF e.ev = "HMMany" THEN
         Chk(e.st = "ok" /\ e.wrong = 0, [tag |-> "MM", i |-> l, ev |-> "HMMany", api |-> IF e.body THEN "json-body" ELSE "no-body", label |-> "ManyMappedRootFields",
                                           exp |-> "", got |-> IF e.st # "ok" THEN e.st ELSE "wrong-fields", detail |-> ""])
